@@ -44,6 +44,61 @@ def ast_of(expr, fmap):
     raise ValueError("unsupported expression node %s: %s" % (type(expr).__name__, expr))
 
 
+def eq_event(eq, fmap, N):
+    import sympy
+
+    expr = sympy.together(eq.lhs - eq.rhs)
+    num, den = sympy.fraction(expr)
+    num = sympy.expand(num)
+    vars_ = ["x"] + sorted({str(v) for v in num.free_symbols if str(v) != "x"})
+    try:
+        return {"op": "eq", "text": str(eq)[:200], "num": ast_of(num, fmap), "vars": vars_, "N": N}
+    except ValueError as e:
+        return {"op": "eq", "text": str(eq)[:200], "num": {"t": "int", "v": 1}, "vars": ["x"], "N": N, "error": str(e)[:120]}
+
+
+def lab_job(args):
+    """The equation of every rule form derived from one (class, strategy) pair of the rule laboratory, in isolation."""
+    (ckey, sname) = args
+    from ..universes import words as W
+    from ..instrument import Namer
+    from .. import rulelab
+
+    prefix, patterns, alphabet, jp, stats = ckey
+    c = W.WC(prefix, patterns, alphabet, jp, stats)
+    s = getattr(W, sname)()
+    namer = Namer("c")
+    labels = {}
+
+    def label(cl):
+        return labels.setdefault(cl, len(labels))
+
+    events = []
+    problems = []
+    forms = rulelab.derived_forms(c, s, problems)
+    N = 6 if len(alphabet) == 2 else 5
+    for fid, rule in forms:
+        try:
+            eq = rule.get_equation(lambda cl: cl.get_function(label))
+        except NotImplementedError:
+            continue
+        except Exception as e:
+            events.append({"op": "eq", "text": "%s: %s" % (fid, type(e).__name__), "num": {"t": "int", "v": 1}, "vars": ["x"], "N": N, "error": str(e)[:120], "form": fid})
+            continue
+        if not hasattr(eq, "lhs"):
+            if bool(eq):
+                continue  # an identity (sympy evaluated Eq(f, f))
+            events.append({"op": "eq", "text": "%s: False" % fid, "num": {"t": "int", "v": 1}, "vars": ["x"], "N": N, "form": fid})
+            continue
+        fmap = {"F_%d" % i: namer(cl) for cl, i in labels.items()}
+        ev = eq_event(eq, fmap, N)
+        ev["form"] = fid
+        events.append(ev)
+    classes = {n: cl.desc() for cl, n in namer.names.items()}
+    tid = "lab|%s|%s|%s|%s|%s" % (prefix or "e", ",".join(patterns), "".join(alphabet), ";".join("%s=%s" % (a, b) for a, b in stats) or "-", sname)
+    return {"tid": tid, "classes": classes, "events": events, "sig": "lab/%s" % sname}
+
+
 def job(args):
     import sympy
 
@@ -68,14 +123,7 @@ def job(args):
         for eq in eqs:
             if "NOTIMPLEMENTED" in str(eq):
                 continue
-            expr = sympy.together(eq.lhs - eq.rhs)
-            num, den = sympy.fraction(expr)
-            num = sympy.expand(num)
-            vars_ = ["x"] + sorted({str(v) for v in num.free_symbols if str(v) != "x"})
-            try:
-                events.append({"op": "eq", "text": str(eq)[:200], "num": ast_of(num, fmap), "vars": vars_, "N": N})
-            except ValueError as e:
-                events.append({"op": "eq", "text": str(eq)[:200], "num": {"t": "int", "v": 1}, "vars": ["x"], "N": N, "error": str(e)[:120]})
+            events.append(eq_event(eq, fmap, N))
         if want_genf and not start.extra_parameters and spec.number_of_rules() <= 12:
             x = sympy.var("x")
             try:
@@ -102,6 +150,15 @@ def run(tier: str, seed: int) -> int:
     cfgs = sc.configs(tier, seed, stats=("s0", "s1", "s2m", "s3d"), packs=packs, max_n=(140 if tier == "quick" else 2500))
     jobs = [(c, i % 3 == 0 or tier == "thorough") for i, c in enumerate(cfgs)]
     traces = [t for t in pmap(job, jobs, procs=16, chunk=1) if t and t["events"]]
+    from .. import rulelab
+    pairs = rulelab.fixture_classes(tier, seed)
+    pairs = [((c.prefix, c.patterns, c.alphabet, c.just_prefix, c.stats), type(st).__name__) for c, st in pairs]
+    if tier == "quick":
+        pairs = pairs[:320]
+    ncampaign = len(traces)
+    traces += [t for t in pmap(lab_job, pairs, procs=16, chunk=4) if t and t["events"]]
+    run_.extra["campaign_specifications"] = ncampaign
+    run_.extra["laboratory_rule_pairs"] = len(traces) - ncampaign
     ngenf = 0
     for t in traces:
         run_.events += len(t["events"])
@@ -119,8 +176,9 @@ def run(tier: str, seed: int) -> int:
         run_.sample({"closed_form": g})
     v = tlc.validate_traces(run_.wd, "Trace_Series", traces, jvms=14, tag="series", timeout=3000, heap="4g")
     run_.add_verdicts(v, "Trace_Series")
-    run_.rejects(v, {t["tid"]: t for t in traces}, lambda tr, r: tr["sig"] + "/" + tr["events"][r["event"] - 1]["op"])
-    run_.rule = ("every equation of every campaign specification (N = 6, 5 over three letters; 0-3 statistics) and the closed form "
+    run_.rejects(v, {t["tid"]: t for t in traces}, lambda tr, r: tr["sig"] + "/" + tr["events"][r["event"] - 1]["op"] + "/" + tr["events"][r["event"] - 1].get("form", ""))
+    run_.rule = ("the equation of every rule form (rule, reverse, equivalence, equivalence of a reverse, equivalence paths) of the rule "
+                 "laboratory in isolation; every equation of every campaign specification (N = 6, 5 over three letters; 0-3 statistics) and the closed form "
                  "of parameter-free specifications with <= 12 rules (M <= 24); non-trivial = an equation with a non-trivial "
                  "right-hand side, each closed form")
     run_.extra["closed_forms_judged"] = ngenf
